@@ -54,7 +54,7 @@ def run_oracle(oracle, seed, repo, work, args=(), timeout=300):
         return {'oracle': oracle, 'error': 'oracle crashed: rc=%s %s' % (p.returncode, (p.stderr or p.stdout)[-300:])}
 
 
-def verus_replay(prop, unit_res, fl, repo, work, seed):
+def verus_replay(prop, unit_res, fl, repo, work, seed, preset=None):
     oracle = None
     for fns, orc in unit_res.get('oracles', {}).items():
         if fl['function'] in fns.split(','):
@@ -63,8 +63,8 @@ def verus_replay(prop, unit_res, fl, repo, work, seed):
            'backend': 'verus+z3', 'generated_file': unit_res.get('generated'), 'generated_line': fl['line'],
            'verifier_output': fl['verifier_output'], 'failing_input': None,
            'rerun': 'cd /verif && ./check %s' % prop}
-    if oracle:
-        o = run_oracle(oracle, seed, repo, work)
+    if oracle or preset:
+        o = preset or run_oracle(oracle, seed, repo, work)
         rep['native_oracle'] = o
         if o.get('failing_input'):
             rep['failing_input'] = o['failing_input']
